@@ -109,7 +109,8 @@ class StringContainsToConcat:
             return []
         k1 = f'{var}_prefix'
         k2 = f'{var}_suffix'
-        if is_var(Node(k1)) or is_var(Node(k2)):
+        if is_declared_symbol(Node(k1)) or is_declared_symbol(
+                Node(k2)):
             return []
         vars = [
             Node('declare-const', k1, 'String'),
